@@ -22,7 +22,7 @@ CONTENT = {"c0": "zero\n", "c1": "one\n", "sA": "foo", "sAB": "foob", "sBC": "ba
 
 TEMPLATES = {
     "chain": dict(Targets="ChainT", Order="ChainOrder", DeclDeps="ChainDeps", Aliases="NoAliases", AliasMenu="NoAliasMenu",
-                  OutKind="ChainKind", InFiles="ChainFiles", GlobT="{}", CheckT="{}"),
+                  OutKind="ChainKind", InFiles="ChainFiles", GlobT="{}", CheckT="{}", ToolT='{"b"}'),
     "diamond": dict(Targets="DiaT", Order="DiaOrder", DeclDeps="DiaDeps", Aliases="NoAliases", AliasMenu="NoAliasMenu",
                     OutKind="DiaKind", InFiles="DiaFiles", GlobT="{}", CheckT="{}"),
     "alias": dict(Targets="AliT", Order="AliOrder", DeclDeps="AliDeps", Aliases="AliAliases", AliasMenu="AliMenu",
@@ -45,6 +45,7 @@ def cfg_text(template, acts, cmds, modes, sels, maxsteps, spec="Spec", invariant
         lines.append(f"  {k} <- {t[k]}")
     lines.append(f"  GlobT = {t['GlobT']}")
     lines.append(f"  CheckT = {t['CheckT']}")
+    lines.append(f"  ToolT = {t.get('ToolT', '{}')}")
     lines.append(f"  CmdMenu = {tla_set(cmds)}")
     lines.append(f"  Acts = {tla_set(acts)}")
     lines.append(f"  Modes = {tla_set(modes)}")
@@ -124,8 +125,10 @@ class Workspace:
     def __init__(self, grog, base, header, opts):
         self.grog, self.base, self.h, self.opts = grog, base, header, opts
         self.ws = os.path.join(base, "ws")
-        self.pkg = os.path.join(self.ws, "pkg")
-        os.makedirs(self.pkg)
+        # layout: one package "pkg" for everything, or (multipkg) one package per target and alias, every package naming its input
+        # files in1.in, in2.in (the same relative names in different packages)
+        self.multi = bool(opts.get("multipkg"))
+        os.makedirs(self.ws)
         toml = [f'num_workers = {opts.get("workers", 4)}']
         if opts.get("hash"):
             toml.append(f'hash_algorithm = "{opts["hash"]}"')
@@ -142,6 +145,22 @@ class Workspace:
         self.targets = sorted(header["targets"])
         self.aliases = sorted(header["aliases"])
         self.state = None
+
+    # ---- layout
+    def pkgname(self, t):
+        return f"pk_{t}" if self.multi else "pkg"
+
+    def pkgdir(self, t, root=None):
+        return os.path.join(root or self.ws, self.pkgname(t))
+
+    def label(self, t):
+        return f"//{self.pkgname(t)}:{t}"
+
+    def inname(self, n):
+        return f"in{n[-1]}.in" if self.multi else n + ".in"
+
+    def opath(self, t, outv, root=None):
+        return os.path.join(self.pkgdir(t, root), self.outpath(t, outv))
 
     # ---- rendering the abstract sources
     def outpath(self, t, outv):
@@ -177,6 +196,9 @@ class Workspace:
             body += [f'rm -f "$GROG_WORKSPACE_ROOT/../ext/{t}"']
         elif t in self.h["checkt"] and c != "noest" and not (c == "omit" and out):   # (the specification's "omit" of a target with outputs fails before it touches the condition)
             body += ['mkdir -p "$GROG_WORKSPACE_ROOT/../ext"', f'echo ok > "$GROG_WORKSPACE_ROOT/../ext/{t}"']
+        if t in self.h.get("toolt", []) and out:
+            # the undeclared tool: when it is broken the same command exits 0 without its declared output
+            body.append(f'if [ -f "$GROG_WORKSPACE_ROOT/../ext/{t}.broken" ]; then rm -rf "{out}"; echo "E {t}" >> "$GROG_WORKSPACE_ROOT/../trace"; exit 0; fi')
         body.append(f": command version {c}")     # every command version is a different command text (also for targets without outputs)
         if c == "omit":
             if out:
@@ -192,14 +214,16 @@ class Workspace:
             dump = ['dump() { if [ -d "$1" ]; then (cd "$1" && find . | sort && find . -type f | sort | xargs cat); else cat "$1"; fi; }']
             lines = [f'echo "{t} {c} {s["outv"]}"']
             if t in self.h["globt"]:
-                lines.append(f'for f in {t}?.in; do if [ -f "$f" ]; then echo "$f"; cat "$f"; fi; done')
+                lines.append(f'for f in {"in" if self.multi else t}?.in; do if [ -f "$f" ]; then echo "$f"; cat "$f"; fi; done')
             else:
                 for n in ins:
-                    lines.append(f'echo "{n}.in"; if [ -f "{n}.in" ]; then cat "{n}.in"; else echo "<declared, absent>"; fi')
+                    lines.append(f'echo "{n}.in"; if [ -f "{self.inname(n)}" ]; then cat "{self.inname(n)}"; else echo "<declared, absent>"; fi')
             for d in sorted(self.h["decldeps"][t]):
                 rd = self.resolve(st, d)
                 dout = self.outpath(rd, st["src"][rd]["outv"])
                 if dout:
+                    if self.multi:
+                        dout = f"../{self.pkgname(rd)}/{dout}"
                     lines.append(f'echo "dep {rd}"; dump "{dout}"')
             body += dump + ["{ " + "; ".join(lines) + "; } > " + tmpf]
         if kind == "pair":
@@ -211,7 +235,7 @@ class Workspace:
                 if c == "const" or len(ins) < 2:
                     body.append(f'sha256sum < {tmpf} > "{out}/{i}"')
                 else:
-                    body.append(f'{{ echo "{t} {c} {s["outv"]}"; if [ -f "{ins[i - 1]}.in" ]; then cat "{ins[i - 1]}.in"; else echo "<declared, absent>"; fi; }} | sha256sum > "{out}/{i}"')
+                    body.append(f'{{ echo "{t} {c} {s["outv"]}"; if [ -f "{self.inname(ins[i - 1])}" ]; then cat "{self.inname(ins[i - 1])}"; else echo "<declared, absent>"; fi; }} | sha256sum > "{out}/{i}"')
         elif kind == "bin":
             body += [f'sha256sum < {tmpf} > "{out}"', f'chmod +x "{out}"']
         elif kind == "file":
@@ -232,12 +256,14 @@ class Workspace:
             d = {"name": t, "command": self.command(st, t)}
             ins = sorted(self.h["infiles"][t])
             if t in self.h["globt"]:
-                d["inputs"] = [f"{t}?.in"]
+                d["inputs"] = ["in?.in" if self.multi else f"{t}?.in"]
             elif ins:
-                d["inputs"] = [n + ".in" for n in ins]
+                d["inputs"] = [self.inname(n) for n in ins]
             out = self.outpath(t, s["outv"])
             if out:
                 d["outputs"] = [("dir::" + out) if self.h["outkind"][t] == "dir" else out]
+                if self.h["outkind"][t] == "file" and self.targets.index(t) % 2 == 1:
+                    d["outputs"] = ["./" + out]      # the same path in a spelling that is not clean (every second file output)
                 if self.h["outkind"][t] == "pair":
                     d["outputs"] = [out + "/1", out + "/2"]
                 if self.h["outkind"][t] == "bin":
@@ -245,7 +271,7 @@ class Workspace:
                     d["bin_output"] = out
             deps = sorted(self.h["decldeps"][t])
             if deps:
-                d["dependencies"] = [":" + x for x in deps]
+                d["dependencies"] = [self.label(x) if self.multi else ":" + x for x in deps]
             if s["nc"]:
                 d["tags"] = ["no-cache"]
             d["fingerprint"] = {"v": s["fp"]}
@@ -266,24 +292,30 @@ class Workspace:
                     else:
                         d["output_checks"] = [{"command": f'echo ok; test -f "$GROG_WORKSPACE_ROOT/../ext/{t}"', "expected_output": "ok"}]
             targets.append(d)
+        if self.multi:
+            pkgs = {self.pkgname(d["name"]): {"targets": [d]} for d in targets}
+            for x in self.aliases:
+                pkgs[self.pkgname(x)] = {"targets": [], "aliases": [{"name": x, "actual": self.label(st["alias"][x])}]}
+            return pkgs
         pkg = {"targets": targets}
         if self.aliases:
             pkg["aliases"] = [{"name": x, "actual": ":" + st["alias"][x]} for x in self.aliases]
-        return pkg
+        return {"pkg": pkg}
 
-    def write_sources(self, st, pkgdir=None):
-        pkgdir = pkgdir or self.pkg
-        os.makedirs(pkgdir, exist_ok=True)
+    def write_sources(self, st, root=None):
         for t in self.targets:
+            os.makedirs(self.pkgdir(t, root), exist_ok=True)
             for n, c in st["files"][t].items() if isinstance(st["files"][t], dict) else []:
-                p = os.path.join(pkgdir, n + ".in")
+                p = os.path.join(self.pkgdir(t, root), self.inname(n))
                 if c == "absent":
                     if os.path.exists(p):
                         os.remove(p)
                 else:
                     if not os.path.exists(p) or open(p).read() != CONTENT[c]:
                         open(p, "w").write(CONTENT[c])
-        json.dump(self.render(st), open(os.path.join(pkgdir, "BUILD.json"), "w"), indent=1)
+        for name, pkg in self.render(st).items():
+            os.makedirs(os.path.join(root or self.ws, name), exist_ok=True)
+            json.dump(pkg, open(os.path.join(root or self.ws, name, "BUILD.json"), "w"), indent=1)
 
     # ---- running grog
     def grog_cmd(self, args, cwd=None, env=None, timeout=150):
@@ -332,7 +364,7 @@ class Workspace:
         if act["mode"] == "minimal":
             args.append("--load-outputs=minimal")
         args += ["--platform", PLATFORMS[st["platform"]]]
-        args.append("//..." if act["s"] == "ALL" else f"//pkg:{act['s']}")
+        args.append("//..." if act["s"] == "ALL" else self.label(act["s"]))
         return args
 
 
@@ -341,9 +373,9 @@ def clean_build_digests(wsobj, st, act, tag):
     base = tempfile.mkdtemp(prefix="clean.", dir=wsobj.base)
     try:
         ws = os.path.join(base, "ws")
-        os.makedirs(os.path.join(ws, "pkg"))
+        os.makedirs(ws)
         shutil.copy(os.path.join(wsobj.ws, "grog.toml"), ws)
-        wsobj.write_sources(st, os.path.join(ws, "pkg"))
+        wsobj.write_sources(st, root=ws)
         os.makedirs(os.path.join(base, "tmp"))
         if os.path.isdir(wsobj.extdir):
             shutil.copytree(wsobj.extdir, os.path.join(base, "ext"))
@@ -355,7 +387,7 @@ def clean_build_digests(wsobj, st, act, tag):
         dig = {}
         for t in wsobj.targets:
             out = wsobj.outpath(t, st["src"][t]["outv"])
-            dig[t] = digest_path(os.path.join(ws, "pkg", out)) if out else None
+            dig[t] = digest_path(wsobj.opath(t, st["src"][t]["outv"], root=ws)) if out else None
         return ok, dig
     finally:
         shutil.rmtree(base, ignore_errors=True)
@@ -400,7 +432,7 @@ def replay(grog, history, opts, scratch_root, literal_clean=True):
                 # an output renamed: the harness clears what sits at the newly declared path (the model says absent)
                 for t in W.targets:
                     if st["src"][t]["outv"] != prev["src"][t]["outv"]:
-                        newp = os.path.join(W.pkg, W.outpath(t, st["src"][t]["outv"]))
+                        newp = W.opath(t, st["src"][t]["outv"])
                         if os.path.isdir(newp) and not os.path.islink(newp):
                             shutil.rmtree(newp)
                         elif os.path.lexists(newp):
@@ -413,17 +445,17 @@ def replay(grog, history, opts, scratch_root, literal_clean=True):
                 W.moves = n_moves
                 new_ws = os.path.join(base, "elsewhere" * (n_moves % 2) + f"ws{n_moves}")
                 os.rename(old_ws, new_ws)
-                W.ws, W.pkg = new_ws, os.path.join(new_ws, "pkg")
+                W.ws = new_ws
                 if old_cache:
                     newdir = os.path.join(W.root, hashlib.sha256(new_ws.encode()).hexdigest()[:16] + "-" + os.path.basename(new_ws))
                     os.rename(os.path.dirname(old_cache), newdir)
             elif kind == "taint":
-                p = W.grog_cmd(["taint", "//..." if act["t"] == "ALL" else f"//pkg:{act['t']}"])
+                p = W.grog_cmd(["taint", "//..." if act["t"] == "ALL" else W.label(act["t"])])
                 if p is None or p.returncode != 0:
                     note(i, "taint-command-failed", t=act["t"], err=(p.stderr[-300:] if p else "timeout"))
             elif kind == "perturb":
                 t = act["t"]
-                path = os.path.join(W.pkg, W.outpath(t, st["src"][t]["outv"]))
+                path = W.opath(t, st["src"][t]["outv"])
                 v = st["ws"][t]
                 if not os.path.lexists(path):
                     note(i, "harness-perturb-target-missing", t=t)
@@ -447,6 +479,9 @@ def replay(grog, history, opts, scratch_root, literal_clean=True):
                     os.remove(p)
                 else:
                     note(i, "harness-ext-missing", t=act["t"])
+            elif kind == "breaktool":
+                os.makedirs(W.extdir, exist_ok=True)
+                open(os.path.join(W.extdir, act["t"] + ".broken"), "w").close()
             elif kind == "corruptresults":
                 tdir = os.path.join(W.cache_dir() or "", "target")
                 nfiles = 0
@@ -458,7 +493,7 @@ def replay(grog, history, opts, scratch_root, literal_clean=True):
                     note(i, "harness-no-result-files")
             elif kind == "dropblob":
                 t = act["t"]
-                path = os.path.join(W.pkg, W.outpath(t, st["src"][t]["outv"]))
+                path = W.opath(t, st["src"][t]["outv"])
                 cas = os.path.join(W.cache_dir() or "", "cas")
                 want = open(os.path.join(path, "1" if W.h["outkind"][t] == "pair" else "data") if os.path.isdir(path) else path, "rb").read()
                 hit = False
@@ -504,15 +539,21 @@ def replay(grog, history, opts, scratch_root, literal_clean=True):
                 ctx = dict(mode=act["mode"], cacheOn=act["cacheOn"], sel=act["s"], stderr_tail=(p.stderr + p.stdout)[-600:])
                 if execd != sorted(act["exec"]):
                     note(i, "exec-set", real=execd, model=sorted(act["exec"]), why={t: act["why"][t] for t in W.targets}, dec=act["dec"], **ctx)
-                if twice != sorted(act["twice"]):
+                # a dependency whose cached outputs cannot be restored is re-run for its dependants (minimal mode): the specification folds
+                # the dependants one after the other (one re-run), the implementation lets concurrent dependants each re-run it. The
+                # properties exempt cache faults from "at most once", so such targets are left out of the comparison
+                refaulted = {t for t in W.targets if "rerun-for-dependant" in act["why"][t]}
+                if sorted(set(twice) - refaulted) != sorted(set(act["twice"]) - refaulted):
                     note(i, "exec-twice", real=twice, model=sorted(act["twice"]), **ctx)
+                elif set(twice) & refaulted - set(act["twice"]):
+                    stats["dup_reruns"] = stats.get("dup_reruns", 0) + 1
                 if ok != act["ok"]:
                     note(i, "status", real_ok=ok, model_ok=act["ok"], failed=sorted(act["failed"]), dec=act["dec"], **ctx)
                 # failed targets are named
                 if not ok:
                     text = p.stderr + p.stdout
                     for t in act["failed"]:
-                        if f"//pkg:{t}" not in text:
+                        if W.label(t) not in text:
                             note(i, "failed-target-not-named", t=t, **ctx)
                 # decisions from hook events
                 hits = {e["t"].split(":")[-1] for e in events if e.get("k") == "t.hit"}
@@ -547,7 +588,7 @@ def replay(grog, history, opts, scratch_root, literal_clean=True):
                 real = {}
                 for t in W.targets:
                     out = W.outpath(t, st["src"][t]["outv"])
-                    real[t] = digest_path(os.path.join(W.pkg, out)) if out else None
+                    real[t] = digest_path(W.opath(t, st["src"][t]["outv"])) if out else None
                 for t in W.targets:
                     mv, rv = st["ws"][t], real[t]
                     if not W.outpath(t, st["src"][t]["outv"]):
@@ -580,8 +621,9 @@ def replay(grog, history, opts, scratch_root, literal_clean=True):
                             if t in sel and W.outpath(t, st["src"][t]["outv"]) and cdig[t] != real[t]:
                                 note(i, "clean-literal", t=t, incremental=real[t], clean=cdig[t], **ctx)
             prev = st
-            if mism:
+            if mism and any(m["kind"] != "taint-set" for m in mism):
                 break   # reality has left the specification's state: later steps of this history say nothing
+                        # (a wrong taint marker alone is followed further: what the next build does with it is the point of C05 / C13)
         return mism, stats
     finally:
         subprocess.run(["chmod", "-R", "u+rwx", base], capture_output=True)
@@ -697,6 +739,7 @@ def run_histories(chk, tmp, grog, histories, prop, literal_clean, label, opts_of
         opts = dict(opts_of(i) if opts_of else {"workers": 1 + i % 4, "hash": ["", "sha256"][i % 2]})
         opts["check_style"] = styles[i % len(styles)]
         opts.setdefault("timeouts", (i // len(styles)) % 3 != 0)
+        opts.setdefault("multipkg", (i // len(styles)) % 3 == 1)      # every third history: one package per target, same input file names everywhere
         return replay(grog, h, opts, tmp, literal_clean=literal_clean)
 
     with ThreadPoolExecutor(core.NCPU) as ex:
